@@ -880,7 +880,7 @@ pub fn hostile_socket(ctx: &Ctx) -> Outcome {
     let mut cases = vec![];
     for pos in 1..base.events.len() {
         for to in [0u8, 1] {
-            for kind in 0u8..4 {
+            for kind in 0u8..10 {
                 cases.push((pos, Ev::Stray { to, kind }));
             }
         }
@@ -902,7 +902,7 @@ pub fn hostile_socket(ctx: &Ctx) -> Outcome {
             continue;
         }
         // stray kinds 0..2 come from addresses / ids that belong to no connection: traces must be identical
-        let is_foreign = matches!(e, Ev::Stray { kind: 0..=2, .. });
+        let is_foreign = matches!(e, Ev::Stray { kind: 0..=2, .. }) || matches!(e, Ev::Stray { kind: 4..=7, .. });
         let mut sig: Vec<(u64, SocketAddr, SocketAddr, u8, u16, u16, u16, usize)> = l.wire.iter().enumerate().filter(|(_, w)| !w.injected).map(|(i, w)| (w.t_us, l.wire_from[i], l.wire_to[i], w.ptype, w.conn_id, w.seq, w.ack, w.len)).collect();
         // the stray event itself shifts later events by one 1 ms slot: compare shapes without absolute time
         let strip = |v: &Vec<(u64, SocketAddr, SocketAddr, u8, u16, u16, u16, usize)>| v.iter().map(|x| (x.1, x.2, x.3, x.4, x.5, x.6, x.7)).collect::<Vec<_>>();
@@ -925,7 +925,7 @@ pub fn hostile_socket(ctx: &Ctx) -> Outcome {
         }
         if ok_connects < 3 || ok_accepts < 3 {
             // kind 3 may break the one connection it is aimed at - but only that one, and later service works
-            let tolerated = matches!(e, Ev::Stray { kind: 3, .. }) && ok_connects >= 2 && ok_accepts >= 2;
+            let tolerated = matches!(e, Ev::Stray { kind: 3 | 8 | 9, .. }) && ok_connects >= 2 && ok_accepts >= 2;
             if !tolerated {
                 let s = SockScript { cfgs: cfgs.clone(), events: base_events(Some((pos, e.clone()))), rng_seed: 1, latency_us: 10_000, plan: vec![] };
                 if !out.violations.iter().any(|v| v.signature == "contamination/hostile-datagram-breaks-other-connections") {
@@ -942,7 +942,7 @@ pub fn hostile_socket(ctx: &Ctx) -> Outcome {
     }
     p.states = seen.len() as u64;
     p.distinct_outcomes = seen.len() as u64;
-    p.bound = "3 connections on one socket pair; 4 kinds of stray / hostile datagram to either socket at every position of the event script; differential against the run without it".into();
+    p.bound = "3 connections on one socket pair; 10 kinds of stray / malformed / hostile datagram to either socket at every position of the event script; differential against the run without it".into();
     p.samples.push(json!({"stray": "RESET with a live connection's id from a foreign address", "position": 4}));
     let _ = ctx;
     out.parts.push(p);
